@@ -192,6 +192,38 @@ impl CfgSpec {
         v
     }
 
+    /// Does an error path designate this field?  The path starts with the dotted position of the enclosing
+    /// structure and ends with the field name (an enum-variant component may sit in between).
+    pub fn path_names(path: &str, leaf: &str) -> bool {
+        let full = Self::full_path(leaf);
+        if path == full {
+            return true;
+        }
+        let comps: Vec<&str> = full.split('.').collect();
+        let got: Vec<&str> = path.split('.').collect();
+        // the documented components in order, with at most one extra component (variant name) anywhere
+        if got.len() != comps.len() + 1 {
+            return false;
+        }
+        (0..got.len()).any(|skip| got.iter().enumerate().filter(|(i, _)| *i != skip).map(|(_, c)| *c).eq(comps.iter().copied()))
+    }
+
+    /// Dotted path of a field (as named by `in_documented_range`) in the public configuration structure.
+    pub fn full_path(leaf: &str) -> &'static str {
+        match leaf {
+            "block_size" => "block_size",
+            "max_order" => "subframe_coding.fixed.max_order",
+            "partitions" => "subframe_coding.fixed.order_sel.partitions",
+            "lpc_order" => "subframe_coding.qlpc.lpc_order",
+            "quant_precision" => "subframe_coding.qlpc.quant_precision",
+            "use_direct_mse" => "subframe_coding.qlpc.use_direct_mse",
+            "mae_optimization_steps" => "subframe_coding.qlpc.mae_optimization_steps",
+            "alpha" => "subframe_coding.qlpc.window.alpha",
+            "max_parameter" => "subframe_coding.prc.max_parameter",
+            _ => "?",
+        }
+    }
+
     pub fn window_alpha(&self) -> Option<f32> {
         self.window.map(f32::from_bits)
     }
